@@ -123,15 +123,33 @@ def setCol (r : Row) (i : Nat) (v : Val) : Row := r.set i v
 def applySets (args : Args) (sets : List (Nat × SetE)) (r : Row) : Row :=
   sets.foldl (fun acc p => setCol acc p.1 (evalSet acc args p.2)) r
 
+/-- right-hand sides of ON DUPLICATE KEY UPDATE: `c = VALUES(c)` or `c = <literal>` -/
+inductive UpSrc
+  | values
+  | lit (v : Val)
+  deriving Repr, DecidableEq
+
 inductive Stmt
   | update (sets : List (Nat × SetE)) (w : Cond)
   | delete (w : Cond)
   | insert (rows : List (List Expr))      -- full rows, one expression per column (lit / par)
   | failing (s : Stmt)                    -- a statement the database fails (deadlock, lock wait timeout, …)
+  | upsert (rows : List (List Expr)) (assign : List (Nat × UpSrc))   -- INSERT … ON DUPLICATE KEY UPDATE
   deriving Repr
 
 inductive SqlErr | dupKey | other
   deriving Repr, DecidableEq
+
+/-- one row of INSERT … ON DUPLICATE KEY UPDATE: inserted when its key is new, otherwise the stored
+    row gets the assignments (`VALUES(c)` is the new row's value of `c`) -/
+def upsertRow (sc : Schema) (assign : List (Nat × UpSrc)) (t : Table) (r : Row) : Table :=
+  match lookup sc t (keyOf sc r) with
+  | none => t ++ [r]
+  | some _ =>
+    t.map fun old =>
+      if keyOf sc old == keyOf sc r then
+        assign.foldl (fun acc p => acc.set p.1 (match p.2 with | .values => r.getD p.1 .null | .lit v => v)) old
+      else old
 
 /-- execute a statement: new table and affected-row count, or an error with nothing changed -/
 def apply (sc : Schema) (t : Table) (args : Args) : Stmt → Except SqlErr (Table × Nat)
@@ -148,5 +166,8 @@ def apply (sc : Schema) (t : Table) (args : Args) : Stmt → Except SqlErr (Tabl
     | some t' => .ok (t', news.length)
     | none => .error .dupKey
   | .failing _ => .error .other
+  | .upsert rows assign =>
+    let news := rows.map fun es => es.map (evalE [] args)
+    .ok (news.foldl (upsertRow sc assign) t, news.length)
 
 end Seata.DB
